@@ -516,6 +516,108 @@ class Storm:
             c.close()
         self.quiesce(srv, expect_users=[], expect_conns=0, what="flood teardown")
 
+    # ---------------------------------------------------------------- W8 a reader that stops reading
+    def w_stall(self, srv, ncmd):
+        """one connection with a tiny receive buffer pipelines commands with very long replies and reads nothing: its
+        own handler may wait for the socket, everybody else must still be served ("keeps answering every live
+        connection"); afterwards it reads everything: the replies come complete and in command order"""
+        import threading
+        self.rounds += 1
+        pfx = self.uid("q")
+        a, b = open_many(srv, 2, pfx + "a", password=self.password)
+        slow = wire.Client(srv.port, name="slow", timeout=30.0, rcvbuf=4096)
+        slow.keep_transcript = False
+        if self.password:
+            slow.send("PASS " + self.password)
+        slow.send("NICK %ss" % pfx)
+        slow.send("USER %ss 0 * :slow" % pfx)
+        slow.read_until(lambda m: m.verb == "221")
+        big = "#" + self.uid("bg")
+        for c in (a, b, slow):
+            c.send("JOIN " + big)
+            c.ping("j")
+        for c in (a, b, slow):
+            c.ping("j2")
+            c.read_available(0.0)
+        per = (1900 - 40) // (len(big) + 1)
+        kind = self.r.choice(["NAMES", "LIST"])
+        burst = b""
+        for j in range(ncmd):
+            burst += ("%s %s,#none%d\r\n" % (kind, ",".join([big] * per), j)).encode()
+        burst += b"PING end\r\n"
+        slow.sock.settimeout(120.0)
+        th = threading.Thread(target=lambda: slow.send_raw(burst), daemon=True)
+        th.start()
+        time.sleep(0.3)
+        an, bn = "%sa0" % pfx, "%sa1" % pfx
+        backlogged = None
+        T = 12.0
+        stalled = None
+        t0 = time.monotonic()
+        try:
+            for rnd in range(4):
+                ch = "#%sp%d" % (pfx, rnd)
+                a.send("JOIN " + ch)
+                a.read_until(lambda m: m.verb == "366" and ch in m.params, T)
+                b.send("PRIVMSG %s :stall probe %d" % (an, rnd))
+                a.read_until(lambda m: m.verb == "PRIVMSG" and m.params[-1:] == ["stall probe %d" % rnd], T)
+                a.send("TOPIC %s :t%d" % (ch, rnd))
+                a.read_until(lambda m: m.verb == "TOPIC", T)
+                n = wire.Client(srv.port, name="new", timeout=T)
+                n.keep_transcript = False
+                if self.password:
+                    n.send("PASS " + self.password)
+                n.send("NICK %sn%d" % (pfx, rnd))
+                n.send("USER n 0 * :n")
+                n.read_until(lambda m: m.verb == "221", T)
+                n.close()
+                self.events += 4
+        except wire.Timeout as ex:
+            stalled = "round %d: no answer within %.0f s while a non-reading connection had %d %s commands with %d-name " \
+                      "lists outstanding" % (rnd, T, ncmd, kind, per)
+        except wire.Closed:
+            stalled = "round %d: a bystander was disconnected while a non-reading connection was being answered" % rnd
+        worst = time.monotonic() - t0
+        if self.hooks and not stalled:
+            # the server's own per-command counters: the slow connection's handler is stuck behind its socket when
+            # fewer commands have been dispatched than were sent
+            done = srv.snap()["command_counts"].get(kind, 0)
+            backlogged = done < ncmd
+        if stalled:
+            self.bad("storm:stalled-by-slow-reader", stalled)
+        # now the slow one reads: every command's reply, in command order (the last 366/323 of command j names #none<j>
+        # only in NAMES; LIST ends with 323)
+        try:
+            lines = slow.read_until(lambda m: m.verb == "PONG" and m.params[-1:] == ["end"], 120.0)
+        except (wire.Closed, wire.Timeout) as ex:
+            lines = getattr(ex, "lines", [])
+            if not stalled:
+                self.bad("storm:slow-reader-lost", "the slow reader's stream ended before its last reply (%d lines, %s)"
+                         % (len(lines), type(ex).__name__))
+            lines = None
+        th.join(5.0)
+        if lines is not None:
+            self.events += len(lines)
+            if kind == "NAMES":
+                ends = [m.params[1] for m in lines if m.verb == "366" and len(m.params) > 1]
+                seq = [int(x[5:]) for x in ends if x.startswith("#none")]
+                n353 = sum(1 for m in lines if m.verb == "353")
+                if seq != list(range(ncmd)) or len(ends) != ncmd * (per + 1) or n353 != ncmd * per:
+                    self.bad("storm:slow-reader-replies", "NAMES x%d with %d names each: %d 353, %d 366 (expected %d, %d), "
+                             "command order kept: %s" % (ncmd, per, n353, len(ends), ncmd * per, ncmd * (per + 1),
+                                                         seq == list(range(ncmd))))
+            else:
+                n322 = sum(1 for m in lines if m.verb == "322")
+                n323 = sum(1 for m in lines if m.verb == "323")
+                if n323 != ncmd or n322 != ncmd * per:
+                    self.bad("storm:slow-reader-replies", "LIST x%d with %d names each: %d 322, %d 323 (expected %d, %d)"
+                             % (ncmd, per, n322, n323, ncmd * per, ncmd))
+        self.classes.add(("stall", kind, {None: "unknown", True: "handler-waiting-for-socket", False: "no-backlog"}[backlogged]))
+        self.extra_stall = max(getattr(self, "extra_stall", 0.0), worst)
+        for c in (a, b, slow):
+            c.close()
+        self.quiesce(srv, expect_users=[], expect_conns=0, what="stall teardown")
+
     # ---------------------------------------------------------------- W5 churn
     def w_churn(self, srv, k, n):
         self.rounds += 1
@@ -598,8 +700,8 @@ def worker(args):
         with st.server() as srv:
             r = st.r
             for _ in range(rounds):
-                kind = r.choice(["claim", "claim", "claim", "rename", "firstjoin", "order", "limit", "fifo", "churn", "flood"]
-                                if only is None else only)
+                kind = r.choice(["claim", "claim", "claim", "rename", "firstjoin", "order", "limit", "fifo", "churn", "flood",
+                                 "stall"] if only is None else only)
                 if kind == "claim":
                     st.w_claim(srv, r.choice([4, 8, 16]), r.choice(["nick-then-user", "user-then-nick", "one-segment"]))
                 elif kind == "rename":
@@ -612,6 +714,8 @@ def worker(args):
                     st.w_limit(srv, r.choice([6, 10]), r.choice([1, 2, 3, 5]))
                 elif kind == "fifo":
                     st.w_order_full(srv, r.choice([3, 5, 12]), r.choice([30, 120]) if quick else r.choice([80, 400]))
+                elif kind == "stall":
+                    st.w_stall(srv, r.choice([300, 500]) if quick else r.choice([400, 800]))
                 elif kind == "flood":
                     st.w_flood(srv, r.choice([400, 1500]) if quick else r.choice([1500, 6000]))
                 else:
